@@ -11,39 +11,24 @@ import (
 // The rest of the standard context API (Go 1.20/1.21 additions), so that a library change that
 // starts using it still builds under the checker.
 
-type causeKey struct{}
-
-type causeCtx struct {
-	Context
-	cause *error
-}
-
-func (c *causeCtx) Value(key any) any {
-	if _, ok := key.(causeKey); ok {
-		return c
-	}
-	return c.Context.Value(key)
-}
-
 func WithCancelCause(parent Context) (Context, CancelCauseFunc) {
 	c := newCtx(parent)
-	var cause error
-	cc := &causeCtx{Context: c, cause: &cause}
-	return cc, func(e error) {
+	return c, func(e error) {
 		vrt.Yield("ctx cancel")
-		if !c.closed {
-			cause = e
-		}
-		c.cancel(Canceled, nil)
+		c.cancelC(Canceled, e, nil)
 	}
 }
 
 func WithDeadlineCause(parent Context, d time.Time, cause error) (Context, CancelFunc) {
-	return WithDeadline(parent, d)
+	return WithTimeoutCause(parent, d.Sub(epoch.Add(time.Duration(vrt.Now()))), cause)
 }
 
 func WithTimeoutCause(parent Context, timeout time.Duration, cause error) (Context, CancelFunc) {
-	return WithTimeout(parent, timeout)
+	ctx, cancel := WithTimeout(parent, timeout)
+	if c, ok := ctx.(*vctx); ok {
+		c.dlCause = cause
+	}
+	return ctx, cancel
 }
 
 type withoutCancel struct{ c Context }
